@@ -599,12 +599,17 @@ func c02Causes(model []*MEvent, lay Layout, atoms ...*c02Atom) string {
 			}
 		}
 	}
+	// answers served from persistent-query results come from another evaluator (the ingest-time one): a class of its own
+	sfx := ""
+	if strings.HasPrefix(lay.Name, "pqs-") {
+		sfx = "@pqs"
+	}
 	for _, c := range []string{"col-absent-in-block", "mixed-block", "int-vs-decimal", "bool-column", "numstr-block"} {
 		if causes[c] {
-			return c // primary cause, by priority
+			return c + sfx // primary cause, by priority
 		}
 	}
-	return "plain"
+	return "plain" + sfx
 }
 
 // c02Applicable: the comparison applies to the event — the column is present and its value has the literal's type.
